@@ -16,12 +16,20 @@ def run(name, ns, na, script, total, seed=0, epsilon=0.5):
     env = TabularEnv(ns, na, script, seed=seed)
     kept, patched = [], []
 
+    tables = []       # (number of environment steps so far, table(s) returned by an update) - the routine's current estimate over time
+
     def patch(attr, conv):
         orig = getattr(mod, attr)
 
         def w(*a, **k):
             kept.append(conv(*a, **k))
-            return orig(*a, **k)
+            out = orig(*a, **k)
+            n_steps = sum(1 for e in env.log if e[0] == "step")
+            if attr in ("_update_policy", "_dql_update", "q_learning_update"):
+                tables.append((n_steps, attr, np.asarray(out, dtype=float), conv(*a, **k)))
+            elif attr == "update":
+                tables.append((n_steps, attr, np.asarray(out[0], dtype=float), None))
+            return out
         setattr(mod, attr, w)
         patched.append((attr, orig))
     res = {"name": name, "raised": None}
@@ -48,7 +56,7 @@ def run(name, ns, na, script, total, seed=0, epsilon=0.5):
     finally:
         for attr, orig in patched:
             setattr(mod, attr, orig)
-    res.update({"log": env.log, "kept": kept, "env": env})
+    res.update({"log": env.log, "kept": kept, "env": env, "tables": tables, "n_states": ns, "n_actions": na})
     return res
 
 
@@ -83,4 +91,25 @@ def check_kept(res):
         for i in range(len(qs) - 1):
             if qs[i + 1][0] == "transition" and (qs[i][0] != "q_update" or qs[i][1:5] != qs[i + 1][1:5]):
                 return "Dyna-Q's direct update is not applied to the real transition", {"update": qs[i][1:], "transition": qs[i + 1][1:]}
+    return None
+
+
+def check_greedy(res):
+    """C13 for the tabular loops run with epsilon = 0: every executed action is a maximiser of the routine's current table at the
+    current observation (q_learning, sarsa, monte_carlo; the table after the latest update made before that step)."""
+    if res["name"] not in ("q_learning", "sarsa", "monte_carlo"):
+        return None
+    cur = np.zeros((res["n_states"], res["n_actions"]))
+    upd = [(n, t) for n, attr, t, _ in res["tables"]]
+    k, ui = 0, 0
+    for e in res["log"]:
+        if e[0] != "step":
+            continue
+        while ui < len(upd) and upd[ui][0] <= k:      # updates made after k environment steps precede step k
+            cur = upd[ui][1]
+            ui += 1
+        s_, a_ = e[1], e[2]
+        if cur[s_, a_] < cur[s_].max():
+            return "an executed action is not a maximiser of the current table although epsilon is 0", {"step": k, "state": s_, "action": a_, "row": cur[s_].tolist()}
+        k += 1
     return None
